@@ -7,7 +7,7 @@ use arrow::datatypes::{DataType, Field, Schema};
 use arrow::record_batch::RecordBatch;
 use datafusion_common::ScalarValue;
 use datafusion_expr::Operator;
-use datafusion_expr_common::interval_arithmetic::{apply_operator, satisfy_greater, Interval};
+use datafusion_expr_common::interval_arithmetic::{apply_operator, satisfy_greater, Interval, NullableInterval};
 use datafusion_physical_expr::analysis::{analyze, AnalysisContext, ExprBoundaries};
 use datafusion_physical_expr::expressions::{BinaryExpr, CastExpr, Column, Literal, NegativeExpr, NotExpr};
 use datafusion_physical_expr::intervals::cp_solver::{
@@ -88,6 +88,28 @@ fn iv_out(i: &Interval) -> Option<Value> {
     Some(json!({"ty": ty, "lu": lo.is_none(), "lo": lo.unwrap_or(0), "hu": hi.is_none(), "hi": hi.unwrap_or(0)}))
 }
 
+fn niv_in(j: &Value) -> R<NullableInterval> {
+    Ok(match j["nk"].as_str().ok_or("nk")? {
+        "null" => NullableInterval::Null { datatype: dt(j["iv"]["ty"].as_str().ok_or("ty")?)? },
+        "maybe" => NullableInterval::MaybeNull { values: iv_in(&j["iv"])? },
+        _ => NullableInterval::NotNull { values: iv_in(&j["iv"])? },
+    })
+}
+
+fn niv_out(n: &NullableInterval) -> Option<Value> {
+    Some(match n {
+        NullableInterval::Null { datatype } => {
+            let ty = ty_name(datatype);
+            if ty.starts_with('?') {
+                return None;
+            }
+            json!({"nk": "null", "iv": {"ty": ty, "lu": false, "lo": 0, "hu": false, "hi": 0}})
+        }
+        NullableInterval::MaybeNull { values } => json!({"nk": "maybe", "iv": iv_out(values)?}),
+        NullableInterval::NotNull { values } => json!({"nk": "notnull", "iv": iv_out(values)?}),
+    })
+}
+
 fn operator(op: &str) -> R<Operator> {
     Ok(match op {
         "add" => Operator::Plus,
@@ -102,6 +124,8 @@ fn operator(op: &str) -> R<Operator> {
         "neq" => Operator::NotEq,
         "and" => Operator::And,
         "or" => Operator::Or,
+        "isdistinct" => Operator::IsDistinctFrom,
+        "isnotdistinct" => Operator::IsNotDistinctFrom,
         _ => return Err(format!("unknown operator {op}")),
     })
 }
@@ -191,6 +215,7 @@ enum Out {
     Tag(&'static str, Vec<Interval>),
     Flag(bool),
     Num(Option<i64>),
+    Niv(NullableInterval),
 }
 
 fn run_case(c: &Value) -> R<Result<Out, String>> {
@@ -235,6 +260,22 @@ fn run_case(c: &Value) -> R<Result<Out, String>> {
                 _ => return Err(format!("un op {op}")),
             };
             r.map(Out::Iv).map_err(e)
+        }
+        "nbin" => {
+            let (a, b) = (niv_in(&c["a"])?, niv_in(&c["b"])?);
+            a.apply_operator(&operator(op)?, &b).map(Out::Niv).map_err(e)
+        }
+        "nun" => {
+            let a = niv_in(&c["a"])?;
+            match op {
+                "not" => a.not(),
+                "is_true" => a.is_true(),
+                "is_false" => a.is_false(),
+                "is_unknown" => a.is_unknown(),
+                _ => return Err(format!("nun op {op}")),
+            }
+            .map(Out::Niv)
+            .map_err(e)
         }
         "set" => {
             let (a, b) = (iv_in(&c["a"])?, iv_in(&c["b"])?);
@@ -381,6 +422,16 @@ fn record(c: &Value) -> R<Value> {
                     }
                 }
             }
+            Out::Niv(n) => match niv_out(&n) {
+                Some(j) => {
+                    set("rk", json!("niv"));
+                    set("r", j);
+                }
+                None => {
+                    set("rk", json!("err"));
+                    set("msg", json!("result type outside model scope"));
+                }
+            },
             Out::NoneR => set("rk", json!("none")),
             Out::Same => set("rk", json!("same")),
             Out::Pair(l, r) => {
@@ -435,6 +486,11 @@ fn record(c: &Value) -> R<Value> {
         } else {
             "b".to_string()
         };
+        ev.insert("rt".into(), json!(rt));
+    }
+    if cls == "nbin" {
+        let op = c["op"].as_str().unwrap_or("");
+        let rt = if matches!(op, "add" | "sub" | "mul" | "div") { c["a"]["iv"]["ty"].as_str().unwrap_or("i8").to_string() } else { "b".to_string() };
         ev.insert("rt".into(), json!(rt));
     }
     if cls == "bounds" || cls == "update" {
@@ -566,6 +622,46 @@ fn confirm(ev: &Value) -> R<Option<String>> {
                     || (ev["rk"] == "success" && vals.iter().zip(ev["rr"].as_array().unwrap()).any(|(v, r)| !in_iv(*v, r)));
                 (in_iv(v, &ev["given"]) && removed).then(|| format!("assignment {vals:?} satisfies the constraint in the engine (value {v}) but was removed"))
             }
+        }
+        "nbin" | "nun" => {
+            // NULL-ness facts follow from SQL three-valued logic; a non-NULL pair is re-evaluated by the engine's evaluator
+            const NULLV: i64 = 1999999999;
+            let nin = |v: Option<i64>, n: &Value| match v {
+                None => n["nk"] != "notnull",
+                Some(x) => n["nk"] != "null" && in_iv(x, &n["iv"]),
+            };
+            let a = if wa == NULLV { None } else { Some(wa) };
+            let b = if wb == NULLV { None } else { Some(wb) };
+            if !nin(a, &ev["a"]) || (cls == "nbin" && !nin(b, &ev["b"])) {
+                return Ok(None);
+            }
+            let v: Option<i64> = if cls == "nun" {
+                match (op, a) {
+                    ("not", None) => None,
+                    ("not", Some(x)) => Some(1 - x),
+                    ("is_true", x) => Some((x == Some(1)) as i64),
+                    ("is_false", x) => Some((x == Some(0)) as i64),
+                    (_, x) => Some(x.is_none() as i64),
+                }
+            } else {
+                match (op, a, b) {
+                    ("and", x, y) => if x == Some(0) || y == Some(0) { Some(0) } else if x.is_none() || y.is_none() { None } else { Some(1) },
+                    ("or", x, y) => if x == Some(1) || y == Some(1) { Some(1) } else if x.is_none() || y.is_none() { None } else { Some(0) },
+                    ("isdistinct", x, y) => Some((x != y) as i64),
+                    ("isnotdistinct", x, y) => Some((x == y) as i64),
+                    (_, Some(x), Some(y)) => {
+                        let (ta, tb) = (ev["a"]["iv"]["ty"].as_str().unwrap().to_string(), ev["b"]["iv"]["ty"].as_str().unwrap().to_string());
+                        let rt = ev["rt"].as_str().unwrap().to_string();
+                        let nodes = vec![node("col", 0, 0, 1, &ta), node("col", 0, 0, 2, &tb), node(op, 1, 2, 0, &rt)];
+                        match eval_row(&nodes, &[ta, tb], &[x, y])? {
+                            Some(v) => Some(v),
+                            None => return Ok(None),
+                        }
+                    }
+                    _ => None,
+                }
+            };
+            (!nin(v, &ev["r"])).then(|| format!("{op} on ({a:?}, {b:?}) is {v:?}, outside the computed nullable interval"))
         }
         // order facts about integers: re-checked directly
         "set" => {
